@@ -61,6 +61,16 @@ func checkAddFeature(c *Ctx, rule string) {
 			why = "the linked copy is not visibly appended to sequence.Features and stored back"
 		}
 	}
+	// a copy of the feature's nested values that is rebuilt field by field must carry every field
+	for _, tn := range []string{"Location", "Feature", "Meta", "Reference", "Locus"} {
+		if obj := c.W.pkg("").Types.Scope().Lookup(tn); obj != nil {
+			if stT, ok := obj.Type().Underlying().(*types.Struct); ok {
+				for _, om := range copyOmissions(family(af), "poly."+tn, stT) {
+					c.bad(rule, "AddFeature copies every field of "+tn, af.Pos(), om+": a feature re-added after a JSON read (or added by a parser) loses them")
+				}
+			}
+		}
+	}
 	c.judge(st, rule, "AddFeature:link-before-copy", af.Pos(), "ParentSequence is set on the feature before the copy that is appended to sequence.Features", why)
 	// GetSequence goes through the parent pointer
 	gfs := c.W.fn("", "getFeatureSequence")
